@@ -94,9 +94,12 @@ def run_jobs(tier, props, which=('explored', 'empty', 'end', 'bound')):
         jobs.append(Job(RUN, cfg, pkg_key='sampler',
                         max_paths=kw.get('max_paths', 8000)))
     if 'explored' in which:
-        for m, end, disc in [([1, 1], [1, 1], False), ([1, 1], [1, 0], True),
-                             ([2, 1], [1, 1], True)]:
-            for nb in (1, 2):
+        for m, end, disc, nbs in [([1, 1], [1, 1], False, (1, 2)),
+                                  ([1, 1], [1, 0], True,
+                                   (1, 2) if thorough else (1,)),
+                                  ([2, 1], [1, 1], True,
+                                   (1, 2) if thorough else (1,))]:
+            for nb in nbs:
                 add(dict(m=m, explored=True, end_exp=end, discard=disc,
                          n_batch=nb, K=1))
         add(dict(m=[1, 1], explored=True, end_exp=[1, 1], n_batch=1, K=1,
